@@ -21,7 +21,12 @@ Correspondence (real code from $VERIF_REPO against the extracted coq/Model/Hosts
             loop, with the real FirewallClient.sethostip writing into a buffer;
   helper    the real firewall.main fed the HOST lines the client wrote (a recording BytesIO as its stdin:
             the limit it passes to readline is observed there and handed to the model), real
-            rewrite_etc_hosts on a scratch hosts file (firewall.HOSTSFILE)."""
+            rewrite_etc_hosts on a scratch hosts file (firewall.HOSTSFILE);
+  local file
+            the same client -> helper -> rewrite_etc_hosts pipeline over LOCAL hosts files of arbitrary bytes (Latin-1 text,
+            malformed UTF-8, UTF-16, NUL, CR, 70000-byte lines, no final newline, stale own lines): every line that does
+            not carry this session's marker is byte-identical and in order after every rewrite and after the session, or
+            the file is untouched (implementation-side oracle; the model statement is C14's c14_rewrite_any_bytes)."""
 import builtins
 import io
 import os
@@ -38,7 +43,8 @@ RULE = ("names x addresses x cuttings: adversarial names (separators, '#', blank
         "names of 107..60000 characters (HOST lines across every plausible reader limit), all compared with the model reading with the "
         "limit observed at the real helper's stdin; the scanner's main loop in generated remote machines (names with NUL, "
         "labels IDNA refuses, non-UTF-8 reverse-DNS answers, missing / unreadable / unwritable files, netstat present or not), "
-        "the scanner as a forked process, the server's loop with the scanner attached; a case is "
+        "the scanner as a forked process, the server's loop with the scanner attached; local hosts files of arbitrary bytes "
+        "(not valid UTF-8, NUL, CR, very long lines, no final newline) under the client -> helper pipeline; a case is "
         "non-trivial when at least one record is emitted / relayed / filtered; distinct by content hash")
 TRUSTED_BASE = [
     "modelled, not verified: CPython str/bytes split/strip/partition/%-formatting, re on the 6 patterns of Appendix D "
@@ -57,7 +63,10 @@ ASSUMPTIONS = [
     "fits one read; as found readline(128): len(name)+len(address) <= 121, F5) remain",
     "every line written by the scanner is at most 61440 bytes (61439 + newline); a longer line makes the server's Mux.send assertion fail (F26)",
     "the remote locale encoding is UTF-8 (what sys.stdout of hostwatch writes and what its text-mode open() decodes); undecodable bytes are read as U+FFFD once pending_fixes/F24_F25.diff is applied (as found: UnicodeDecodeError, F24)",
-    "order of lines inside the hosts file and the untouched foreign lines are C14's (rewrite_etc_hosts); here only the fields of each added line",
+    "order of lines inside the hosts file and the untouched foreign lines are C14's (rewrite_etc_hosts, Model/HostsFile.v); here the fields of each added "
+    "line, and - implementation-side oracle, no model of the file content in Model/Hosts.v - that no line without this session's marker changes whatever "
+    "bytes the local file holds; a local file that does not decode (UTF-8 locale) ends the helper at its first HOST line with the file untouched: tolerated "
+    "(no sentence of the property is about it), recorded as an observation",
     "names that arrive as C strings (command line, gethostname(), gethostbyaddr()) contain no NUL; names read from the remote hosts file / cache may; "
     "the output of `netstat -n` is ASCII (non-ASCII bytes there end hostwatch: recorded as an observation, a socket path is not a host name)",
 ]
@@ -412,22 +421,59 @@ def consts_readline_limit():
     return None if m.group(1) == "None" else int(m.group(2))
 
 
-def impl_helper(work, host_bytes):
+def sx_lines(data):
+    """lines of a hosts file of ARBITRARY bytes (bytes <-> str one to one: a byte that does not decode becomes a lone
+    surrogate), modulo what C14 documents as normalised: text-mode newline translation, white space at the very end"""
+    s = data.decode("utf-8", "surrogateescape").replace("\r\n", "\n").replace("\r", "\n")
+    return s.rstrip().split("\n")
+
+
+def foreign_lines(data):
+    """the lines that do not carry this session's marker"""
+    mk = MARKER.decode()
+    # (nothing at all - an empty file, a file of own lines only - is one empty line)
+    return "\n".join(l for l in sx_lines(data) if mk not in l).rstrip().split("\n")
+
+
+def decodes(data):
+    try:
+        data.decode("utf-8")
+        return True
+    except UnicodeDecodeError:
+        return False
+
+
+def impl_helper(work, host_bytes, foreign=None):
     import sshuttle.firewall as firewall
     import sshuttle.helpers as helpers
     hosts = os.path.join(work, "local_etc_hosts")
-    with open(hosts, "w") as f:
-        f.write(FOREIGN)
+    fb = FOREIGN.encode() if foreign is None else foreign
+    for fn in os.listdir(work):
+        if fn.startswith("local_etc_hosts"):
+            os.unlink(os.path.join(work, fn))
+    with open(hosts, "wb") as f:
+        f.write(fb)
+    ino0 = os.stat(hosts).st_ino
+    keep = os.path.join(work, "keep_inode")          # the inode number cannot be handed out again while this link exists
+    if os.path.exists(keep):
+        os.unlink(keep)
+    os.link(hosts, keep)
     bak = hosts + ".sbak"
-    if os.path.exists(bak):
-        os.unlink(bak)
+    every = []          # (hosts bytes, None | name of the exception) after EVERY call of rewrite_etc_hosts, restore included
     stdin = RecStdin(b"ROUTES\nNSLIST\nPORTS 0,%d,0,0\nGO 0 - - 0x01 4242\n" % PORT + host_bytes)
     stdout = io.BytesIO()
     snaps = []
     real_rewrite = firewall.rewrite_etc_hosts
 
     def rewrite(hostmap, port):
-        real_rewrite(hostmap, port)
+        exc = None
+        try:
+            real_rewrite(hostmap, port)
+        except BaseException as e:        # noqa
+            exc = type(e).__name__
+            raise
+        finally:
+            every.append((open(hosts, "rb").read(), exc))
         if hostmap:
             snaps.append(open(hosts, "rb").read())
     old = (firewall.setup_daemon, firewall.get_method, firewall.flush_systemd_dns_cache, firewall.HOSTSFILE,
@@ -455,11 +501,22 @@ def impl_helper(work, host_bytes):
         (firewall.setup_daemon, firewall.get_method, firewall.flush_systemd_dns_cache, firewall.HOSTSFILE,
          firewall.rewrite_etc_hosts, helpers.log, firewall.sshuttle_pid) = old
     final = open(hosts, "rb").read()
-    last = snaps[-1] if snaps else FOREIGN.encode()
-    mine = [l for l in last.split(b"\n") if MARKER in l]
-    other = b"\n".join(l for l in last.split(b"\n") if MARKER not in l)
-    return {"status": st, "lines": mine, "foreign_ok": other == FOREIGN.encode(),
-            "restored": final == FOREIGN.encode(), "n_snaps": len(snaps),
+    last = snaps[-1] if snaps else fb
+    if foreign is None:
+        mine = [l for l in last.split(b"\n") if MARKER in l]
+        other = b"\n".join(l for l in last.split(b"\n") if MARKER not in l)
+        foreign_ok, restored = other == fb, final == fb
+    else:
+        mine = [l.encode("utf-8", "surrogateescape") for l in sx_lines(last) if MARKER.decode() in l] if snaps else []
+        # every line that does not carry this session's marker is byte-identical and in order after every rewrite ...
+        foreign_ok = all(d == fb or foreign_lines(d) == foreign_lines(fb) for d, _ in every)
+        # ... and after the session (own lines gone once a host had been added), or the file is untouched
+        restored = final == fb or (foreign_lines(final) == foreign_lines(fb) and (not snaps or MARKER not in final))
+    left = sorted(fn for fn in os.listdir(work) if fn.startswith("local_etc_hosts") and fn != "local_etc_hosts")
+    os.unlink(keep)
+    return {"status": st, "lines": mine, "foreign_ok": foreign_ok,
+            "restored": restored, "n_snaps": len(snaps), "every": every, "final": final,
+            "untouched": final == fb and os.stat(hosts).st_ino == ino0 and not left, "left": left,
             "limits": sorted(set(l for l, _ in stdin.reads), key=lambda x: (x is not None, x or 0))}
 
 
@@ -1538,9 +1595,104 @@ def _correspondence(ctx, rng, quick, work):
             ctx.violation("helper stopped on a HOST line written by the client", dict(rp, helper=h["status"]))
         if not h["foreign_ok"] or not h["restored"]:
             ctx.violation("foreign hosts-file lines changed", dict(rp, foreign_ok=h["foreign_ok"], restored=h["restored"]))
+    foreign_contents_cases(ctx, quick, work, mode, fw_lim, rand_payload)
     ctx.programs = ctx.evaluations
     if f26_seen:
         ctx.notes.append("a scanner line longer than 61439 bytes made Mux.send's assertion fail in the real server (F26, excluded by hypothesis)")
+
+
+# --------------------------------------------------------------------------
+# the LOCAL hosts file as an input: foreign contents of arbitrary bytes under the client -> helper -> hosts file pipeline
+
+FOREIGN_RAW = [
+    "# Caf\xe9 printer, added by J\xf6rg (Latin-1 editor)".encode("latin-1"), b"10.1.1.1 h\xf4te.example  # h\xf4te",
+    b"\x80", b"\xc3", b"10.0.0.7 cut\xe2\x82", b"\xc0\x80 overlong", b"\xed\xa0\x80 surrogate", b"\xf4\x90\x80\x80", b"\xff\xfe1\x000\x00",
+    b"ok \xc3\xa9 then \xe9", "10.0.0.8 wide".encode("utf-16-le"), b"10.0.0.9 a\x00b", b"\x00", b"1.2.3.4 x\x00",
+    "\ufeff127.0.0.1 bom".encode("utf-8"), "10.2.2.2 caf\xe9 \u65e5\u672c\u8a9e \U0001f600".encode("utf-8"), b"# \x1b[31m esc \x07 \x7f",
+    b"a\rb", b"a\rb\xe9", b"# " + b"L" * 70000, b"# " + b"L" * 5000 + b"\xe9",
+    b"10.3.3.3 other-instance-\xe9           # sshuttle-firewall-1230 AUTOCREATED",
+    b"10.4.4.4 stale-own-\xe9                # sshuttle-firewall-%d AUTOCREATED" % PORT,
+    b"10.4.4.5 stale-own                     # sshuttle-firewall-%d AUTOCREATED" % PORT,
+]
+FOREIGN_FIXED = [
+    b"127.0.0.1 localhost\n# Caf\xe9 printer, added by J\xf6rg (Latin-1 editor)\n192.168.7.20 printer\n",
+    b"127.0.0.1 localhost\n# office printer\n192.168.7.20 printer\n", b"\xff\xfe", b"\xe9", b"127.0.0.1 localhost\n\xc3",
+    b"10.0.0.9 a\x00b\r\n# CRLF, NUL, no final newline", b"a\rb\r\xe9\r", b"L" * 70000 + b"\xe9\nkeep", b"L" * 70000 + b"\nkeep\n",
+    "\ufeff1.1.1.1 bom\n".encode("utf-8"), b"\x00\n", b"", b"\n\n",
+]
+
+
+def foreign_contents_cases(ctx, quick, work, mode, fw_lim, rand_payload):
+    """The Coq model of C19 has no hosts-file content beside the added lines (that is C14's HostsFile.v, where
+    c14_rewrite_any_bytes is the statement); this is an implementation-side oracle on the real client -> helper ->
+    rewrite_etc_hosts pipeline: whatever bytes the local file holds, every line that does not carry this session's marker
+    is byte-identical and in order after every rewrite and after the session, or the file is untouched."""
+    import random
+    rng = random.Random("C19-foreign-%d" % ctx.seed)            # own stream: the cases above stay the same
+
+    def gen_foreign():
+        ls = [rng.choice(FOREIGN_RAW) if rng.random() < 0.6 else
+              rng.choice([b"127.0.0.1 localhost", b"# a comment", b"10.9.8.7   somebody.else  # keep me", b"", b" \t",
+                          bytes(rng.choice([c for c in range(256) if c != 10]) for _ in range(rng.choice([1, 3, 12])))])
+              for _ in range(rng.choice([1, 2, 3, 5, 8]))]
+        term = rng.choice([b"\n", b"\n", b"\n", b"\r\n", b"\r"])
+        return term.join(ls) + rng.choice([b"", term, term, term * 2])
+    contents = list(FOREIGN_FIXED) + [gen_foreign() for _ in range(150 if quick else 3000)]
+    fixed_pipes = [[b"web-1,10.1.2.3\n"], [b"a,1.1.1.1\nb,2.2.2.2\n", b"a,3.3.3.3\n"]]
+    pipes = []
+    for k, fb in enumerate(contents):
+        pipes.append((fb, fixed_pipes[k % 2]))
+        pipes.append((fb, [rand_payload() for _ in range(rng.randint(1, 3))]))
+
+    def run(got_host_list, pfile):
+        return [client_payloads(got_host_list, pfile, ps) for _, ps in pipes]
+    cimpl = with_client(run)
+    pout = ctx.run_driver(["PIPE %s %s %s %s" % ("1" if mode == "repaired" else "0", lim_str(fw_lim), hx(MARKER), " ".join(hx(p) for p in ps))
+                           for _, ps in pipes])
+    for (fb, ps), (st, data), o in zip(pipes, cimpl, pout):
+        und = not decodes(fb)
+        h = impl_helper(work, data, foreign=fb)
+        ls = split_lines(data)
+        ctx.case(("foreign", fb, tuple(ps)), nontrivial=bool(ls))
+        ctx.count("foreign_content_" + ("undecodable" if und else "decodable"))
+        ctx.count("foreign_content_helper_" + h["status"].replace(" ", "_"))
+        rp = {"stage": "pipeline", "payloads": [hx(p) for p in ps], "foreign_hex": hx(fb)}
+        if st != "OK":
+            continue                 # the client's own outcome is judged in the pipelines above
+        if not h["foreign_ok"] or not h["restored"]:
+            bad = next((d for d, _ in h["every"] if d != fb and foreign_lines(d) != foreign_lines(fb)), h["final"])
+            a, b = foreign_lines(fb), foreign_lines(bad)
+            i = next((j for j in range(min(len(a), len(b))) if a[j] != b[j]), min(len(a), len(b)))
+            ctx.violation("a hosts-file line that does not carry this session's marker was altered, lost or moved%s"
+                          % (" (local hosts file holding bytes that do not decode)" if und else ""),
+                          dict(rp, helper=h["status"], during_session=not h["foreign_ok"], after_session=not h["restored"],
+                               was=repr(a[i].encode("utf-8", "surrogateescape")[:120]) if i < len(a) else None,
+                               now=repr(b[i].encode("utf-8", "surrogateescape")[:120]) if i < len(b) else None))
+            continue
+        if und and h["status"] == "CRASH UnicodeDecodeError":
+            # the helper gives up at its first HOST line: tolerated ONLY if nothing at all was touched
+            if ls and not h["untouched"]:
+                ctx.violation("the helper gave up on a hosts file it cannot decode, but not before touching it",
+                              dict(rp, helper=h["status"], left=h["left"]))
+            continue
+        if h["status"] != "RUNNING":
+            ctx.violation("helper stopped on a HOST line written by the client", dict(rp, helper=h["status"]))
+            continue
+        # the helper went through: the usual oracles, and the model's lines
+        i = "%s %s | %s" % (st, h["status"], ";".join(hx(l) for l in h["lines"]))
+        if i != o:
+            ctx.disagree("client+helper pipeline over a local hosts file of arbitrary bytes", [hx(p)[:200] for p in ps] + [hx(fb)[:200]], i[:400], o[:400])
+        bad = [l.decode("latin-1") for l in h["lines"] if not line_ok(l)]
+        if bad:
+            ctx.violation("hosts-file line is not '<dotted quad> <name> <marker>'", dict(rp, bad_lines=bad[:3]))
+        if mode == "repaired":
+            want, have = delivery(ls, h)
+            if have != want:
+                ctx.violation("a forwarded host record did not arrive as its own hosts-file line", dict(rp, helper=h["status"]))
+    ctx.notes.append("a LOCAL hosts file that does not decode in the locale encoding (e.g. a Latin-1 comment on a UTF-8 system) makes the "
+                     "helper end with UnicodeDecodeError at its first HOST line: the file is left byte-identical (same inode, no backup, "
+                     "no temporary), the packet-filter rules are undone, no host name is added; the client then fails at its next HOST "
+                     "line or at clean-up.  No sentence of C19 / C14 is violated (no line is added, removed or altered) - recorded as an observation")
 
 
 def replay(ctx, rp):
@@ -1599,11 +1751,20 @@ def replay(ctx, rp):
             return True
         if r.get("stage") == "pipeline":
             work = tempfile.mkdtemp(prefix="c19r.")
+            fb = None
+            if r.get("foreign_hex") is not None:
+                fb = bytes.fromhex(r["foreign_hex"]) if r["foreign_hex"] != "-" else b""
             try:
-                h = impl_helper(work, data)
+                h = impl_helper(work, data, foreign=fb)
             finally:
                 shutil.rmtree(work, ignore_errors=True)
             print("helper:", h["status"], "hosts lines:", [l[:120] for l in h["lines"]][:5])
+            if fb is not None:
+                print("local hosts file before:", fb[:300], "\nafter each rewrite:", [d[:300] for d, _ in h["every"]][:4], "\nafter the session:", h["final"][:300])
+                if not h["foreign_ok"] or not h["restored"]:
+                    return True
+                if h["status"] == "CRASH UnicodeDecodeError" and not decodes(fb):
+                    return not h["untouched"]
             want, have = delivery(split_lines(data), h)
             return h["status"] != "RUNNING" or any(not line_ok(l) for l in h["lines"]) or not h["foreign_ok"] or want != have
         return False
